@@ -13,7 +13,7 @@ TRANSLATORS = ["t_moments"]
 REQUIRES = ["From FL Require Import Num Flat Moments Reduction MomentsIO."]
 SHARD = 40
 CHUNK = 4
-CASE_TIMEOUT = 120
+CASE_TIMEOUT = 900       # wall-clock alarm per case; a case needs < 1 s, the margin absorbs a heavily shared machine
 
 LEVEL_TEXT = ("Proof (Coq) about the executable model Moments.v of UtilityParity.load_data/gamma/bound, the event "
               "construction of the five parity moments (merged with the control stratum), ErrorRate.gamma and "
